@@ -13,8 +13,10 @@ import Bng.Model.AcctWire
   Verdicts (clause names of the property):
     stop-unstarted     a Stop was accepted for a session id no StartSession was ever called with
     stop-before-start  a Stop was accepted before that session's Start was accepted
-    dup-stop           a second Stop of a session was accepted although no crash happened since the
-                       session was started ("absent a crash an acknowledged Stop is never sent again")
+    dup-stop           a Stop of a session was accepted after a Stop of that session had been ACKNOWLEDGED to
+                       the client, although no crash happened since the session was started ("absent a crash a
+                       Stop the server has already acknowledged is never sent again"); a Stop the server
+                       accepted but whose reply the client never saw may legitimately be sent again
     lost-stop          at a crash / shutdown / quiescent end: a session whose StartSession returned, or whose
                        Start the server accepted, has no accepted Stop, and neither its session file nor a
                        Stop in pending.json exists (sessions whose retry budget was exceeded are exempt)
@@ -39,6 +41,7 @@ structure WRec where
   cause : Nat
   inO   : Octets
   outO  : Octets
+  acked : Bool := true        -- the client got the Accounting-Response
   deriving Repr
 
 structure MSess where
@@ -46,7 +49,8 @@ structure MSess where
   returned : Bool := false     -- StartSession returned ok
   reused   : Bool := false
   startAcc : Bool := false
-  stopAcc  : Bool := false
+  stopAcc  : Bool := false     -- a Stop was accepted by the server
+  stopAcked : Bool := false    -- a Stop was accepted and acknowledged to the client
   crashed  : Bool := false     -- a crash happened since the start call
   budget   : Bool := false     -- a Stop record of the session was abandoned (retry budget exceeded)
   deriving Repr
@@ -102,9 +106,10 @@ def checkAccepted (m : Mon) (r : WRec) : Mon × List Verdict :=
     | .stop =>
       let v1 : List Verdict := if x.startAcc then [] else
         [("stop-before-start", r.sid, s!"Stop of s{r.sid} accepted before its Start")]
-      let v2 : List Verdict := if x.stopAcc && !x.crashed && !x.reused then
+      let v2 : List Verdict := if x.stopAcked && !x.crashed && !x.reused then
         [("dup-stop", r.sid, s!"acknowledged Stop of s{r.sid} sent again without a crash")] else []
-      ({ m with sess := AMap.insert m.sess r.sid { x with stopAcc := true } }, idv ++ gv ++ v1 ++ v2)
+      let x' : MSess := { x with stopAcc := true, stopAcked := x.stopAcked || r.acked }
+      ({ m with sess := AMap.insert m.sess r.sid x' }, idv ++ gv ++ v1 ++ v2)
     | _ => (m, idv ++ gv)
 
 def check (m : Mon) : Ev → Mon × List Verdict
